@@ -189,3 +189,45 @@ package mod
 //@   ensures deadline-text: imp(i == 0 && !zeroT(vc.vm.sc.deadline), gfs(context.Context.ptr, "resText") == time_format(vc.vm.sc.deadline, s3db.SQLiteTimeFormat))
 //@   ensures write-time-text: imp(i == 1 && !zeroT(vc.vm.sc.writeTime), gfs(context.Context.ptr, "resText") == time_format(vc.vm.sc.writeTime, s3db.SQLiteTimeFormat))
 //@ ufunc time_format(t, l) string
+
+// ---------------------------------------------------------------------------
+// s3db_changes (property C12, C14). The cursor walks the abstract sequence of
+// differences between the two versions (kv contracts: dN, dKeyI, dNewI). A
+// delivered row is a row VISIBLE in the "to" version (it has a new value that
+// is a row and is not deleted); no such row is passed over; the scan reports
+// the end only at the real end of the sequence; a failed step is an error,
+// never a skip (and the loop makes progress on every iteration).
+//@ spec chSnap(c *ChangesCursor) int = gf(c.diffCursor.DiffCursor, "dsnap")
+//@ spec chPos(c *ChangesCursor) int = gf(c.diffCursor.DiffCursor, "dpos")
+//@ spec chNew(d int, i int) interface{} = ite(iface2(dNewTag(d, i), dNewBox(d, i)) == nil, iface(nil), iface2(dNewTag(d, i), dNewBox(d, i)).(crdtpub.Value).Value)
+//@ spec chKey(d int, i int) interface{} = iface2(dKeyTag(d, i), dKeyBox(d, i))
+//@ spec chLive(d int, i int) bool = chNew(d, i) != nil && !chNew(d, i).(*v1proto.Row).Deleted
+// every difference is a (*Key, crdtpub.Value holding nil or a non-nil *Row) on both sides
+//@ spec chShape(d int, i int) bool = imp(0 <= i && i < dN(d), typeis(chKey(d, i), *s3db.Key) &&
+//@     (iface2(dNewTag(d, i), dNewBox(d, i)) == nil || typeis(iface2(dNewTag(d, i), dNewBox(d, i)), crdtpub.Value)) &&
+//@     (iface2(dOldTag(d, i), dOldBox(d, i)) == nil || typeis(iface2(dOldTag(d, i), dOldBox(d, i)), crdtpub.Value)) &&
+//@     (chNew(d, i) == nil || (typeis(chNew(d, i), *v1proto.Row) && chNew(d, i).(*v1proto.Row) != nil)))
+
+//@ func (*ChangesCursor).Next
+//@   requires c != nil && imp(!c.eof, c.diffCursor != nil && c.diffCursor.DiffCursor != nil && c.module != nil && c.module.sc != nil)
+//@   requires forall i int :: imp(!c.eof, chShape(chSnap(c), i))
+//@   requires imp(!c.eof, 0 <= chPos(c) && chPos(c) <= dN(chSnap(c)))
+//@   modifies c.eof, c.currentRow, c.currentKey, gf(c.diffCursor.DiffCursor, "dpos")
+//@   ensures at-eof: imp(old(c.eof), result == nil && c.eof)
+//@   ensures delivered-row-is-visible: imp(result == nil && !c.eof, 0 < chPos(c) && chPos(c) <= dN(chSnap(c)) && chLive(chSnap(c), chPos(c) - 1) &&
+//@       c.currentRow == chNew(chSnap(c), chPos(c) - 1).(*v1proto.Row) && c.currentKey == chKey(chSnap(c), chPos(c) - 1).(*s3db.Key))
+//@   ensures nothing-visible-skipped: forall i int :: imp(result == nil && !old(c.eof) && old(chPos(c)) <= i && i < chPos(c) - ite(c.eof, 0, 1), !chLive(chSnap(c), i))
+//@   ensures end-is-the-end: imp(result == nil && c.eof && !old(c.eof), chPos(c) == dN(chSnap(c)))
+//@   ensures failed-step-not-eof: imp(result != nil, !c.eof)
+//@   ensures place-kept: imp(!c.eof, 0 <= chPos(c) && chPos(c) <= dN(chSnap(c)))
+//@   loop 1 invariant c.diffCursor != nil && c.diffCursor.DiffCursor != nil && c.module != nil && c.module.sc != nil && !c.eof
+//@   loop 1 invariant old(chPos(c)) <= chPos(c) && chPos(c) <= dN(chSnap(c)) && 0 <= old(chPos(c))
+//@   loop 1 invariant forall i int :: imp(old(chPos(c)) <= i && i < chPos(c), !chLive(chSnap(c), i))
+//@   loop 1 decreases dN(chSnap(c)) - chPos(c)
+
+// Column: a delivered row is never deleted, so reading it cannot fail
+//@ func (*ChangesCursor).Column
+//@   requires c != nil && c.t != nil && c.currentRow != nil && c.currentKey != nil && c.currentKey.SQLiteValue != nil && ctx != nil && ctx.Context != nil
+//@   requires forall k string :: imp(has(c.currentRow.ColumnValues, k), c.currentRow.ColumnValues[k] != nil && c.currentRow.ColumnValues[k].Value != nil)
+//@   modifies gf(ctx.Context.ptr, "resKind"), gf(ctx.Context.ptr, "resInt"), gff(ctx.Context.ptr, "resReal"), gfs(ctx.Context.ptr, "resText"), gfs(ctx.Context.ptr, "resBlob")
+//@   ensures visible-row-readable: imp(!c.currentRow.Deleted, result == nil)
